@@ -396,16 +396,24 @@ func (f *Func) reachTarget(
 	var unsatisfied []*Value
 
 	paths := make([][]graph.Vertex, len(vertexT))
+	names := make([]string, len(vertexT))
 	for i, current := range vertexT {
 		currentG := g
 
 		// For value vertices, we discount any other values that share the
 		// same name. This lets our shortest paths prefer matching through
-		// same-named arguments.
+		// same-named arguments. Anything else prefers the name of the value
+		// we are in the process of reaching, if any: a converter on the
+		// path of a named value resolves its own inputs with that preference.
+		name := state.Name
 		if currentValue, ok := current.(*valueVertex); ok {
+			name = currentValue.Name
+		}
+		names[i] = name
+		if name != "" {
 			currentG = currentG.Copy()
 			for _, raw := range currentG.Vertices() {
-				if v, ok := raw.(*valueVertex); ok && v.Name == currentValue.Name {
+				if v, ok := raw.(*valueVertex); ok && v.Name == name {
 					for _, src := range currentG.InEdges(raw) {
 						currentG.AddEdgeWeighted(src, raw, weightMatchingName)
 					}
@@ -473,7 +481,7 @@ func (f *Func) reachTarget(
 	}
 
 	// Go through each path
-	for _, path := range paths {
+	for i, path := range paths {
 		// finalValue will be set to our final value that we see when walking.
 		// This will be set as the value for this required input.
 		var finalValue reflect.Value
@@ -546,6 +554,8 @@ func (f *Func) reachTarget(
 
 			case *funcVertex:
 				// Reach our arguments if they aren't already.
+				outerName := state.Name
+				state.Name = names[i]
 				funcArgMap, err := f.reachTarget(
 					log, //log.Named(graph.VertexName(v)),
 					g,
@@ -554,6 +564,7 @@ func (f *Func) reachTarget(
 					state,
 					redefine,
 				)
+				state.Name = outerName
 				if err != nil {
 					return nil, err
 				}
@@ -650,6 +661,10 @@ type callState struct {
 	// Value is the last seen value vertex. This state is preserved so
 	// we can set the typedVertex values properly.
 	Value reflect.Value
+
+	// Name is the name of the named value we are in the process of reaching,
+	// which nested resolution prefers for inputs that have no name themselves.
+	Name string
 
 	// TODO
 	InputSet map[interface{}]graph.Vertex
